@@ -57,10 +57,11 @@ theorem l14_reconcileParameter_run (env : AEnv) (fid : String) (p : Parameter) (
 
 /-! ### results -/
 
-/-- the result appended for documented result number `k` (loop counter) without a code result -/
+/-- the result appended for documented result number `k` (loop counter, 0-based) without a code result;
+    unnamed ones are numbered from 1 like all generated result names -/
 def l14_newResult (fid : String) (k : Nat) (d : ResultDoc) (dt : AType) : Result :=
-  { id := fid ++ "/" ++ (if d.name != "" then d.name else "result_" ++ toString k),
-    name := (if d.name != "" then d.name else "result_" ++ toString k), type := some dt }
+  { id := fid ++ "/" ++ (if d.name != "" then d.name else "result_" ++ toString (k + 1)),
+    name := (if d.name != "" then d.name else "result_" ++ toString (k + 1)), type := some dt }
 
 /-- the record `reconcileResults` logs per differing position -/
 def l14_resMsg (fid : String) : String :=
@@ -269,6 +270,84 @@ theorem l14_resWarn_eq (env : AEnv) (fid : String) :
   | r :: rs, d :: ds => by
     simp only [l14_resWarn, List.zip_cons_cons, List.filter_cons, l14_resWarn_eq env fid rs ds]
     cases l14_resDiffers env r d <;> simp
+
+/-! #### names of the returned results: the generator convention `result_<position + 1>` is preserved -/
+
+theorem l14_toString_inj {m n : Nat} (h : toString m = toString n) : m = n := by
+  have h1 := congrArg String.toList h
+  simp only [Nat.toString_eq_repr, Nat.toList_repr] at h1
+  have h2 := congrArg (fun l => Nat.ofDigitChars 10 l 0) h1
+  simpa using h2
+
+/-- the generator's result name for the 0-based position `k` -/
+def l14_genName (k : Nat) : String := "result_" ++ toString (k + 1)
+
+theorem l14_genName_inj {m n : Nat} (h : l14_genName m = l14_genName n) : m = n := by
+  unfold l14_genName at h
+  have h1 := congrArg String.toList h
+  simp only [String.toList_append, List.append_cancel_left_eq] at h1
+  have := l14_toString_inj (String.toList_inj.1 h1)
+  omega
+
+theorem l14_genName_nodup (s n : Nat) : ((List.range' s n).map l14_genName).Nodup := by
+  have h : (List.range' s n).Nodup := List.nodup_range'
+  exact List.Pairwise.map _ (fun a b hab e => hab (l14_genName_inj e)) h
+
+theorem l14_zipUpd_names (env : AEnv) :
+    ∀ (rs : List Result) (docs : List ResultDoc), (l14_zipUpd env rs docs).map (·.name) = rs.map (·.name)
+  | [], _ => by simp [l14_zipUpd]
+  | r :: rs, [] => by simp [l14_zipUpd]
+  | r :: rs, d :: ds => by
+    have h1 : (l14_updOne env r d).name = r.name := by
+      unfold l14_updOne
+      split
+      · split <;> rfl
+      · rfl
+    simp only [l14_zipUpd, List.map_cons, h1, l14_zipUpd_names env rs ds]
+
+theorem l14_appended_names (fid : String) :
+    ∀ (docs : List ResultDoc) (k : Nat), (∀ d ∈ docs, d.type.isSome → d.name = "") →
+      ((l14_appended fid k docs).map (·.name)).Sublist ((List.range' k docs.length).map l14_genName)
+  | [], k, _ => by simp [l14_appended]
+  | d :: ds, k, h => by
+    have ih := l14_appended_names fid ds (k + 1) (fun d hd => h d (List.mem_cons_of_mem _ hd))
+    simp only [l14_appended, List.map_append, List.length_cons, List.range'_succ, List.map_cons]
+    cases hd : d.type with
+    | none => exact List.Sublist.cons _ (by simpa using ih)
+    | some dt =>
+      have hn : d.name = "" := h d (List.mem_cons_self) (by simp [hd])
+      have : (l14_newResult fid k d dt).name = l14_genName k := by
+        simp [l14_newResult, hn, l14_genName]
+      simp only [List.map_cons, List.map_nil, List.singleton_append, this]
+      exact List.Sublist.cons_cons _ ih
+
+theorem l14_names_of_conv :
+    ∀ (rs : List Result) (s : Nat), (∀ j r, rs[j]? = some r → r.name = l14_genName (s + j)) →
+      rs.map (·.name) = (List.range' s rs.length).map l14_genName
+  | [], s, _ => by simp
+  | r :: rs, s, h => by
+    have h0 := h 0 r rfl
+    have ih := l14_names_of_conv rs (s + 1) (fun j r' hj => by
+      have := h (j + 1) r' (by simpa using hj)
+      rw [this]; congr 1; omega)
+    simp only [List.map_cons, List.length_cons, List.range'_succ, ih]
+    rw [h0]; rfl
+
+theorem l14_resOut_names_nodup (env : AEnv) (fid : String) (rs : List Result) (docs : List ResultDoc)
+    (hrs : ∀ j r, rs[j]? = some r → r.name = "result_" ++ toString (j + 1))
+    (hdocs : ∀ d ∈ docs.drop rs.length, d.type.isSome → d.name = "") :
+    ((l14_resOut env fid 0 rs rs docs).map (·.name)).Nodup := by
+  have hc := l14_resOut_closed env fid docs 0 [] rs rfl
+  simp only [List.nil_append, Nat.zero_add] at hc
+  rw [hc, List.map_append, l14_zipUpd_names,
+    l14_names_of_conv rs 0 (fun j r hj => by rw [hrs j r hj, Nat.zero_add]; rfl)]
+  have hs := l14_appended_names fid (docs.drop rs.length) rs.length hdocs
+  have hsub := List.Sublist.append (List.Sublist.refl ((List.range' 0 rs.length).map l14_genName)) hs
+  rw [← List.map_append] at hsub
+  have := List.range'_append_1 (s := 0) (m := rs.length) (n := (docs.drop rs.length).length)
+  rw [Nat.zero_add] at this
+  rw [this] at hsub
+  exact List.Nodup.sublist hsub (l14_genName_nodup _ _)
 
 /-! ### the analyser is oblivious to `opts.warn` and to the warning log: a two-run simulation -/
 
@@ -684,17 +763,21 @@ theorem l14_parseAttributes_sim (lv : LValue) (un : Option MType) (isStatic : Bo
           match attributeAlreadyDefined s n with
             | Except.error e => throwV e
             | Except.ok true => pure []
-            | Except.ok false => do
-              let a ← createAttributeV env m n fq iv var un isStatic
-              pure [a] : V (List Attribute))
+            | Except.ok false =>
+              if (m && !iv) = true then pure []
+              else do
+                let a ← createAttributeV env m n fq iv var un isStatic
+                pure [a] : V (List Attribute))
         (do
           let s ← get
           match attributeAlreadyDefined s n with
             | Except.error e => throwV e
             | Except.ok true => pure []
-            | Except.ok false => do
-              let a ← createAttributeV (l14_envW env b) m n fq iv var un isStatic
-              pure [a]) := by
+            | Except.ok false =>
+              if (m && !iv) = true then pure []
+              else do
+                let a ← createAttributeV (l14_envW env b) m n fq iv var un isStatic
+                pure [a]) := by
     intro m n fq iv var
     l14_sim [l14_createAttributeV_sim]
   cases lv with
